@@ -12,7 +12,7 @@ type refBMC struct {
 	rC, guid []byte
 	// the algorithms the BMC places in its Open Session Response (normally the proposal)
 	rspAuth, rspInteg, rspConf int
-	useProposal               bool
+	useProposal                bool
 
 	// learnt from the console
 	reqAuth, reqInteg, reqConf int
